@@ -995,6 +995,19 @@ def seq_method(world, o, name, args, kw, it, node):
                 o.arr = z3.Lambda([v], z3.Or(z3.Select(o.arr, v),
                                              z3.Select(x.arr, v)))
                 return None
+            if isinstance(x, (tuple, list, set, frozenset)):
+                for e in x:
+                    o.arr = z3.Store(o.arr, o.elem.unwrap(e),
+                                     z3.BoolVal(True))
+                return None
+        if name in ('discard', 'remove') and len(args) == 1:
+            e = o.elem.unwrap(args[0])
+            if name == 'remove' and not it.branch(z3.Select(o.arr, e)):
+                it.raise_('KeyError', args[0], node=node)
+            o.arr = z3.Store(o.arr, e, z3.BoolVal(False))
+            return None
+        if name == 'copy':
+            return S.SSet(o.arr, o.elem)
         raise Unsupported('set.%s on symbolic set' % name)
     if isinstance(o, (set,)):
         if name == 'add':
